@@ -57,6 +57,8 @@ pub struct Entry {
     pub incarnation: u32,
     /// the last accepted write of this key was a put_or_update
     pub last_write_upsert: bool,
+    /// the charged weight was last set by an upsert that requested it explicitly
+    pub explicit_weight: bool,
 }
 
 #[derive(Clone, Debug, Default, PartialEq, Eq)]
@@ -132,7 +134,7 @@ impl Model {
 
     pub fn insert(&mut self, k: u8, value: u64, weight: i64, deadline: Option<Duration>, id: u64) {
         let incarnation = self.next_incarnation(k);
-        self.held.insert(k, Entry { value, weight, deadline, soft_deleted: false, id, incarnation, last_write_upsert: false });
+        self.held.insert(k, Entry { value, weight, deadline, soft_deleted: false, id, incarnation, last_write_upsert: false, explicit_weight: false });
         self.stats.keys_added += 1;
         self.stats.weight_added = self.stats.weight_added.wrapping_add(weight as u64);
     }
